@@ -62,7 +62,8 @@ class SEL(generic.Desc):
         return [("no_clear_on_disable", mc_cfg(dev='{"no_clear_on_disable"}', level=8), {"C14_Bracket", "C14_EnabledIsActive"})]
 
     def probes(self, prop):
-        return [(p, mc_cfg(level=9, inv=[p], props=[])) for p in ("Probe_StringWins", "Probe_NoneSelected", "Probe_SecondPeriodOtherMode")]
+        return [(p, mc_cfg(level=9, inv=[p], props=[])) for p in ("Probe_StringWins", "Probe_NoneSelected", "Probe_SecondPeriodOtherMode",
+                                                                           "Probe_DisabledMidRun")]
 
     def sim_run(self, prop, tier, sd):
         depth = 30 if tier == "quick" else 80
@@ -85,7 +86,8 @@ class SEL(generic.Desc):
         return "on_iteration" in v.get("seen", [])
 
     def required_tags(self, prop):
-        return {"on_enable", "on_iteration", "on_disable", "string_wins", "none_selected", "chooser_selection", "periodic_idle"}
+        return {"on_enable", "on_iteration", "on_disable", "string_wins", "none_selected", "chooser_selection", "periodic_idle",
+                "run", "run_goes_on_after_disable"}
 
 
 def check(prop, tier):
